@@ -205,7 +205,10 @@ Step(a) ==
   /\ sets' = IF a.op = "set" THEN Append(sets, [loc |-> a.loc, l |-> a.l]) ELSE sets
   /\ hist' = Append(hist, a)
 
-Next == \E a \in OpsOf(st) : Step(a)
+ASet == \E a \in OpsOf(st) : a.op = "set" /\ Step(a)
+ACreate == \E a \in OpsOf(st) : a.op = "create" /\ Step(a)
+AObserve == \E a \in OpsOf(st) : a.op \notin {"set", "create"} /\ Step(a)
+Next == ASet \/ ACreate \/ AObserve
 
 Spec == Init /\ [][Next]_vars
 
